@@ -252,6 +252,7 @@ def checkCase (j : Json) : Except String Verdict := do
       let credsOK := clientID == c.proxyID && clientSecret == c.proxySecret
       if !credsOK && (status < 400 || !idpKinds.isEmpty) then v := v.mon "C08" "backchannel_needs_credentials" idx s!"{status} {idpKinds}"
       if !credsOK && (strD out "bodyKind" == "json" && !(getJ (getJ out "json") "access_token").isNull) then v := v.mon "C08" "backchannel_reveals_nothing" idx
+      if !credsOK && !(strs out "bodyMentions").isEmpty then v := v.mon "C08" "backchannel_reveals_nothing" idx s!"body mentions {strs out "bodyMentions"}"
       if endpoint == "redeem" && status == 200 then
         let ci := getJ st "codeInfo"
         let js := getJ out "json"
@@ -335,6 +336,11 @@ def checkCase (j : Json) : Except String Verdict := do
     if templated && !(getJ out "structureBenign").isNull && !(boolD out "structureBenign") then
       v := v.mon "C20" "page_structure_invariant" idx (strD out "bodyHead")
     if strD out "bodyKind" == "json" && !(boolD out "jsonOK") then v := v.mon "C20" "json_error_wellformed" idx
+    -- anything else with a body: if the client will treat it as HTML (declared, or sniffed because nothing was declared), it
+    -- must be one of the templated pages — request text is never itself the document
+    if !templated && strD out "bodyKind" == "other" && !(status ≥ 300 && status < 400) &&
+       (strD out "effectiveType").startsWith "text/html" && strD out "htmlStructure" != "" then
+      v := v.mon "C20" "request_text_served_as_html" idx s!"{strD out "effectiveType"} (declared: '{strD out "contentType"}'): {strD out "htmlStructure"}"
     idx := idx + 1
   pure v
 
